@@ -224,6 +224,38 @@ def run_property(pid, tier, seed=0):
         suffix = '' if cex else ' no-failing-input-found'
         lines.append(f"VIOLATION property={pid} replay={rp}{suffix}")
         exit_code = 1
+    # ---- functions that changed and could not be decided by Verus (lost anchor, ghost text no longer fits the
+    # new code, unsupported construct): fall back to the registered Kani harnesses of exactly those functions.
+    # A concrete failing input found there is a violation (bounded evidence, replayable); nothing found stays undecided.
+    suspects = {}
+    for res in results:
+        if res['canary']:
+            continue
+        for it in res['items']:
+            if it['status'] != 'proved' and not it['identical'] and it['kind'] != 'proof':
+                suspects.setdefault(CEX.generic_key(it['key'].replace('__mp', '')), (res, it['key']))
+        for pb in res['problems']:
+            suspects.setdefault(CEX.generic_key(pb['key'].replace('__mp', '')), (res, pb['key']))
+    done_generic = {g.split('/')[0] for g in seen_generic}
+    spent = 0.0
+    for gk, (res, key) in sorted(suspects.items()):
+        if gk in done_generic or spent > 900 or os.environ.get('BNV_NO_KANI'):
+            continue
+        t1 = time.time()
+        try:
+            cex = CEX.search(pid, key, res['digit'], res['mode'], budget_s=300)
+        except Exception as ex:
+            cex = None
+            undecided.append(f'counter-example search for {key} failed: {ex}')
+        spent += time.time() - t1
+        if cex:
+            reported += 1
+            rp = os.path.join(VERIF, 'build', 'replays', f"{pid}_changed_{key.replace('::', '.').replace(' ', '')}.json")
+            json.dump(dict(property=pid, function=key, unit=res['unit'], digit=res['digit'], mode=res['mode'],
+                           failed_obligations=['the function changed and its proof no longer applies (undecided by Verus); a registered Kani harness fails'] + cex.get('failed_checks', []),
+                           verifier_output=[], concrete_input=cex), open(rp, 'w'), indent=1)
+            lines.append(f"VIOLATION property={pid} replay={rp}")
+            exit_code = 1
     if exit_code == 0 and undecided:
         exit_code = 2
     wall = time.time() - t0
